@@ -329,6 +329,10 @@ def _gen_raw(rng, n_ops, kinds, n_rows, share, force_kind):
                 avs = [rng.choice([var_ids['AV1'], var_ids['AV2'], fresh_num(1.0, raw=False)]) for _ in keys]
             # the chosen alternative must be available: build availability of CH explicitly
             node = {'k': kind, 'keys': keys, 'full': full}
+            if not full and rng.random() < 0.5:
+                order = list(range(len(keys)))
+                rng.shuffle(order)
+                node['av_order'] = order
             if full:
                 ones = [fresh_num(1.0, raw=False) for _ in keys]
                 node['c'] = [var_ids['CH']] + utils + ones
@@ -513,6 +517,10 @@ def build(case):
                 o = _bioLogLogitFullChoiceSet(util, c[0])
             else:
                 av = {key: a for key, a in zip(keys, c[1 + m :])}
+                order = n.get('av_order')
+                if order:
+                    # same keys, another insertion order: pairing must be by alternative id, not by position
+                    av = {keys[i]: av[keys[i]] for i in order}
                 o = _bioLogLogit(util, av, c[0])
         else:
             raise ValueError(k)
